@@ -1300,6 +1300,10 @@ def check_api_invalid(inp) -> list:
     s = Symfc(cr.atoms(), displacements=d, forces=f)
     try:
         s.run(orders=[2])
+        if inp.get("all_orders"):
+            # the object ALSO holds basis sets of orders 3 and 4 (computed, not solved): a malformed request must
+            # not fall through to a branch that happens to find everything it needs
+            s.compute_basis_set(orders=[3, 4])
     except np.linalg.LinAlgError:
         return []
     ref = {k: v.copy() for k, v in s.force_constants.items()}
@@ -1316,9 +1320,13 @@ def check_api_invalid(inp) -> list:
         if valid:
             continue
         for call in ("solve", "run", "compute_basis_set"):
+            if inp.get("all_orders") and call != "solve":
+                continue            # (re-computing order-4 basis sets for every malformed request would be slow)
             try:
                 getattr(s, call)(max_order=mo, orders=od)
                 out.append(f"{call}(max_order={mo}, orders={od}) was accepted")
+            except np.linalg.LinAlgError:
+                out.append(f"{call}(max_order={mo}, orders={od}) reached the linear solver")
             except Exception:
                 pass
             if set(s.force_constants) != set(ref) or any(id(s.force_constants[k]) != ids[k] or
